@@ -73,8 +73,13 @@ def run(ctx):
         k = rng.randrange(1, 7)
         parts, bad_at, tag = [], None, None
         make_invalid = rng.random() < 0.35
+        bodies = []
         for j in range(k):
-            parts.append(render_property(annotate(rng, pg.prop(), 'ok'), rng, 'min'))
+            # now and then a member repeats the body of an earlier member (with its own annotations): members are a
+            # sequence, not a set, and equality of properties ignores annotations
+            body = rng.choice(bodies) if bodies and rng.random() < 0.25 else pg.prop()
+            bodies.append(body)
+            parts.append(render_property(annotate(rng, body, 'ok'), rng, 'min'))
         if make_invalid:
             bad_at = rng.randrange(k)
             parts[bad_at], tag = invalid_member(rng, pg)
